@@ -14,7 +14,7 @@ RULE = (
     "x {--ansi,--no-ansi,neither}, and of 13 exception kinds (library and foreign types, KeyboardInterrupt, exceptions "
     "with int/str/None 'code' attributes) x 14 messages (plain, multi-line, non-ASCII, braces, empty, opening / closing "
     "/ unbalanced / unknown / invalid-colour style tags, trailing backslash) x verbosity x ANSI with the origin cycling "
-    "over {generated module, recursion depth 1..60, mutual recursion, exec'd code with filename <string> / empty / "
+    "over {generated module, recursion depth 1..60, mutual recursion, callers whose call spans several source lines, exec'd code with filename <string> / empty / "
     "deleted file, explicit and implicit cause chains up to depth 3}; pre-handle listeners {absent, passes, handles "
     "with status s, raises}; plus Hypothesis cases with generated messages. Non-trivial: an exception whose message or "
     "origin is not plain, or a return value outside {0, None}. Every enumerated cell is distinct by construction."
@@ -51,7 +51,7 @@ MESSAGES = {
 EXC_KINDS = ["ValueError", "RuntimeError", "KeyError", "UserError", "LibCustom", "LibCannotParse", "LibNoSuchOption",
              "KeyboardInterrupt", "CodeInt", "CodeStr", "CodeNone", "OSError", "AssertionError"]
 ORIGINS = ["module", "deep:1", "deep:7", "deep:60", "pingpong:5", "exec:<string>", "exec:", "exec:deleted",
-           "chain:1:explicit", "chain:3:implicit", "chain:2:explicit"]
+           "chain:1:explicit", "chain:3:implicit", "chain:2:explicit", "multiline", "multiline-nested"]
 LINES = [(["run"], {"a1": None}, {}), (["run", "v1"], {"a1": "v1"}, {}), (["run", "--foo", "v1"], {"a1": "v1"}, {"foo": True}),
          (["run", "-f"], {"a1": None}, {"foo": True})]
 
@@ -93,6 +93,10 @@ def raise_from(origin, exc):
     r = raisers.raiser("c04")
     if origin == "module":
         r.boom(exc)
+    elif origin == "multiline":
+        r.multiline(exc)
+    elif origin == "multiline-nested":
+        r.multiline_nested(exc)
     elif origin.startswith("deep:"):
         r.deep(int(origin.split(":")[1]), exc)
     elif origin.startswith("pingpong:"):
